@@ -18,11 +18,23 @@ static const char *VNAME[6] = {"skinny64-64","skinny64-128","skinny64-192",
 
 typedef struct { int vi, bs, klen, dir; } C01Ctx;
 
+/* The library is handed the key in a buffer of its own whose bytes beyond the key are a fixed non-zero
+ * pattern: what follows the key in memory is then the same in the enumeration and in a replay, and a
+ * key-setting function that looks beyond the stated length computes something the specification does not. */
+static const uint8_t *isolated_key(const uint8_t *key, int klen)
+{
+    static uint8_t kiso[160];
+    memset(kiso, 0xA5, sizeof(kiso));
+    memcpy(kiso, key, (size_t)klen);
+    return kiso;
+}
+
 static int g_sched_changed;   /* set when a block function modified the schedule it takes as const */
 
 static int real_skinny(int bs, const uint8_t *key, int klen, int dir,
                        const uint8_t *in, uint8_t *out)
 {
+    key = isolated_key(key, klen);
     if (bs == 16) {
         Skinny128Key_t ks;
         verif_paint_obj(&ks, sizeof(ks)); verif_paint_stack();
@@ -360,14 +372,14 @@ static void c04_case(const uint8_t *buf, size_t m, void *arg)
     if (c->how == 1) memset(tweak, 0, 16);
     if (c->bs == 16) {
         Skinny128TweakedKey_t tk; verif_paint_obj(&tk, sizeof(tk)); verif_paint_stack();
-        ok = skinny128_set_tweaked_key(&tk, key, (unsigned)c->klen) == 1;
+        ok = skinny128_set_tweaked_key(&tk, isolated_key(key, c->klen), (unsigned)c->klen) == 1;
         verif_paint_stack();
         if (ok && c->how == 0) ok = skinny128_set_tweak(&tk, tweak, 16) == 1;
         if (ok) { out_digest("skinny128-tweaked-schedule", tk.ks.schedule, tk.ks.rounds * sizeof(tk.ks.schedule[0])); out_digest("skinny128-tweak", tk.tweak, 16); verif_paint_stack(); }
         if (ok) { if (c->dir) skinny128_ecb_decrypt(real, blk, &tk.ks); else skinny128_ecb_encrypt(real, blk, &tk.ks); out_digest("skinny128-tweaked-block", real, 16); }
     } else {
         Skinny64TweakedKey_t tk; verif_paint_obj(&tk, sizeof(tk)); verif_paint_stack();
-        ok = skinny64_set_tweaked_key(&tk, key, (unsigned)c->klen) == 1;
+        ok = skinny64_set_tweaked_key(&tk, isolated_key(key, c->klen), (unsigned)c->klen) == 1;
         verif_paint_stack();
         if (ok && c->how == 0) ok = skinny64_set_tweak(&tk, tweak, 8) == 1;
         if (ok) { out_digest("skinny64-tweaked-schedule", tk.ks.schedule, tk.ks.rounds * sizeof(tk.ks.schedule[0])); out_digest("skinny64-tweak", tk.tweak, 8); verif_paint_stack(); }
